@@ -425,12 +425,10 @@ func c15Session(t *rapid.T) {
 		cfg.headers = []string{"HEADER-ONE", "HEADER-TWO x"}[:nh]
 		args = append(args, "--header", strings.Join(cfg.headers, "\n"))
 	}
-	nhl := rapid.SampledFrom([]int{0, 0, 1, 2}).Draw(t, "headerLines")
-	if nhl > n {
-		nhl = n
-	}
+	nhl := rapid.SampledFrom([]int{0, 0, 1, 2, 3}).Draw(t, "headerLines")
 	if nhl > 0 {
-		cfg.headerLines = lines[:nhl]
+		// the input may have fewer lines than --header-lines: all of them are header lines then
+		cfg.headerLines = lines[:minInt(nhl, n)]
 		args = append(args, fmt.Sprintf("--header-lines=%d", nhl))
 	}
 	if nh > 0 && rapid.IntRange(0, 3).Draw(t, "headerFirst") == 0 {
@@ -550,7 +548,7 @@ func c15Session(t *rapid.T) {
 				body = "reload-sync(cat " + src + ")"
 			}
 			if nhl > 0 {
-				cfg.headerLines = cur[:nhl]
+				cfg.headerLines = cur[:minInt(nhl, len(cur))]
 			}
 		case "resize":
 			cfg.width = rapid.SampledFrom([]int{24, 30, 40, 61, 90, 130}).Draw(t, "newWidth")
